@@ -130,7 +130,7 @@ contract(f"{M}:JitterBuffer._remove_frame", params={"sequence_number": "int"}, r
                             "implies(frame is not None, forall(lambda p: implies(jb_off(self._origin, p) < remove, "
                             "self._packets[p].timestamp == frame.timestamp), 0, CAP))",
                             "implies(frame is not None, jb_slot(self, remove).timestamp != frame.timestamp)",
-                            "implies(frame is not None, frame.data == joined(lambda k: jb_slot(self, k)._data, remove))",
+                            "implies(frame is not None, frame.data == joined(lambda k: old(jb_slot(self, k)._data), remove))",
                         ])},
          modifies=["self._origin", "content(self._packets)"],
          instances=CAPS, tags=T)
